@@ -82,6 +82,10 @@ func guard(f func() string) (s string) {
 func c03Dump(e gmsl.PDU) string {
 	var lines []string
 	add := func(k string, f func() string) { lines = append(lines, k+"="+guard(f)) }
+	// the value of the event once its ID is computed (EventID() fills the EventIDRaw cache, the
+	// known finding F16); no read-only accessor called below may change it any further
+	guard(func() string { return e.EventID() })
+	before := guard(func() string { return gmsl.VerifC03EventValue(e) })
 	add("id", func() string { return pct([]byte(e.EventID())) })
 	add("reid", func() string {
 		v, err := gmsl.GetRoomVersion(e.Version())
@@ -118,6 +122,18 @@ func c03Dump(e gmsl.PDU) string {
 		return "err"
 	})
 	add("json", func() string { return pct(e.JSON()) })
+	// a second round of the accessors that derive something, then compare the event value
+	guard(func() string { r := e.RoomID(); return r.String() })
+	guard(func() string { return strings.Join(e.AuthEventIDs(), ",") })
+	guard(func() string { return strings.Join(e.PrevEventIDs(), ",") })
+	guard(func() string { _, _ = e.Membership(); _, _ = e.JoinRule(); _, _ = e.HistoryVisibility(); _, _ = e.PowerLevels(); return "" })
+	guard(func() string { _ = e.IsSticky(time.Now(), time.Now()); _ = e.StickyEndTime(time.Now()); _, _ = e.ToHeaderedJSON(); return "" })
+	after := guard(func() string { return gmsl.VerifC03EventValue(e) })
+	if before == after {
+		lines = append(lines, "pure=ok")
+	} else {
+		lines = append(lines, "pure=CHANGED")
+	}
 	return strings.Join(lines, "\n")
 }
 
@@ -721,6 +737,30 @@ func genC03(c *Ctx) {
 			bad(ver, func(a [][]byte) { a[3], a[4], a[5], a[2] = B("m.room.create"), B("1"), B("x"), B("!"+g.randOf(b64url, 43)) }, "v12-create-skey-x-with-room")
 			bad(ver, func(a [][]byte) { a[3], a[4], a[5], a[2] = B("m.room.create"), B("0"), B(""), B("") }, "v12-create-no-skey-no-room")
 			bad(ver, func(a [][]byte) { a[3], a[4], a[5], a[2] = B("m.room.create"), B("1"), B(""), B("") }, "v12-create")
+			// explicit auth lists that already name the create event: first, in the middle, last, twice
+			for _, shape := range [][]int{{0}, {0, 1}, {1, 0}, {1, 0, 2}, {1, 2, 0}, {0, 0}, {1, 0, 0}, {0, 1, 0}} {
+				a := g.proto(ver)
+				room := "!" + g.randOf(b64url, 43)
+				if string(a[3]) == "m.room.create" {
+					a[3] = B("m.room.member")
+				}
+				a[2] = B(room)
+				ids := make([]string, len(shape))
+				for i, k := range shape {
+					if k == 0 {
+						ids[i] = "$" + room[1:]
+					} else {
+						ids[i] = "$" + g.randOf(b64url, 43)
+					}
+				}
+				jb, _ := json.Marshal(ids)
+				a[7] = jb
+				c.Run("C03.roundtrip", a, "C03.roundtrip", "C03.prop.roundtrip", fmt.Sprintf("v12 auth list names the create event %v %s", shape, c03Desc(a)))
+				c.Count("boundary/v12-auth-names-create")
+				ae := append(append([][]byte{}, a...), B(`{"age":1}`), B("age"), B("2"), B("second.example.org"), B("ed25519:2"))
+				c.Run("C03.edits", ae, "C03.edits", "C03.prop.edits", fmt.Sprintf("v12 auth list names the create event %v %s", shape, c03Desc(a)))
+				c.Count("edits/v12-auth-names-create")
+			}
 			// type m.room.create but not THE create event (no state key): an ordinary event
 			bad(ver, func(a [][]byte) { a[3], a[4], a[5], a[2] = B("m.room.create"), B("0"), B(""), B("!"+g.randOf(b64url, 43)) }, "v12-create-type-no-skey-with-room")
 			for _, ty := range []string{"m.room.create", "m.room.member"} {
